@@ -3,14 +3,14 @@ ID = "C18"
 LEVEL = "exploration"
 LEVEL_TEXT = (
     "PROVED (z3; any configuration): stable_hash_cfg is stable_hash(json.dumps(self.serialize())) - a function of the serialized content only - and to_fname is "
-    "sanitize_fname(name '-g' grid_n '-n' shorten(n_mazes) '-a_' generator-name-without-gen_ '-h' (that hash mod 10^5)) (library functions uninterpreted). Everything else is bounded: "
+    "sanitize_fname(name '-g' grid_n '-n' shorten(n_mazes) '-a_' generator-name-without-gen_ '-h' (that hash mod 10^5)) (library functions uninterpreted); GPTDatasetConfig.__post_init__ keeps every seed except None (0 included) and the other fields. Everything else is bounded: "
     + 'Bounded: serialize/load (also through JSON text) over a cross product of generators, kwargs, endpoint options, seeds and filter lists; hashes pairwise distinct for single-field differences, equal across 3 hash seeds; file name against the documented format.'
 )
 LEVEL_NOTE = "Trusted: muutils field walk (serialize/load), sha256 collision freedom, json.dumps / stable_hash / sanitize_fname / shorten_numerical_to_str as pure functions."
 TECHNIQUE = "bounded run-time checking of the real code over an enumerated cross product (round trips, pairwise discrimination, hash seeds) + contracts on the two identity functions discharged by z3"
 CONTRACT_MODULES = ["contracts.configs"]
 MD = "maze_dataset/dataset/maze_dataset.py"
-PROVE = [(MD, "MazeDatasetConfig.stable_hash_cfg"), (MD, "MazeDatasetConfig.to_fname")]
+PROVE = [(MD, "MazeDatasetConfig.stable_hash_cfg"), (MD, "MazeDatasetConfig.to_fname"), ("maze_dataset/dataset/dataset.py", "GPTDatasetConfig.__post_init__")]
 ASSUMPTIONS = []
 EXPLANATION = "see DESIGN.md C18"
 
